@@ -38,7 +38,7 @@ REQUIRED_MONITORS = ["minimal_bounding_sphere", "minimal_bounding_circle", "mini
                      "circumsphere", "circumcircle", "insphere", "incircle", "curved-balls", "radius-getters"]
 REQUIRED_CLASSES = ["exists:circumsphere", "none:circumsphere", "exists:insphere", "none:insphere", "exists:circumcircle",
                     "none:circumcircle", "exists:incircle", "none:incircle", "polygon:cw", "polygon:nonconvex", "polyhedron:nonconvex",
-                    "history:aged-object", "curved:extreme-units"]
+                    "history:aged-object", "history:sibling-aged", "curved:extreme-units"]
 TOL = 1e-6
 
 
@@ -475,12 +475,17 @@ _TIER = {"tier": "quick"}
 _ball_cache = {}
 
 
+_SIBLINGS = []
+
+
 def _maybe_age(i, s, rng, rec, info):
     """One case in three judges an object with a past (reads that fill whatever the object memoises, then moves, resizes,
     a semi-axis assigned, diagonalize_inertia / to_hoomd) - the ball monitors read the current public geometry."""
     if (i // 20) % 3 == 1:
-        info["history"] = aging.age(s, rng)
-        rec.cls("history:aged-object")
+        info["history"], sib = aging.age_or_sibling(s, rng)
+        _SIBLINGS.append(sib)          # stays alive while s is judged
+        del _SIBLINGS[:-4]
+        rec.cls("history:aged-object" if sib is None else "history:sibling-aged")
 
 
 def run_case(i, rng, rec, tier, state):
